@@ -33,15 +33,28 @@ ReqOK(r) ==
     /\ ~r.liveclosed                                                   \* the live session was not disturbed
     /\ (d.effect = "data") = r.delivered
 
+\* a websocket handshake naming a session: refused unless that session is live and on long-polling; a
+\* refused or unfinished one leaves the session as it was (its own connection still carries traffic both ways,
+\* it was not closed, its transport is the same)
+WsOK(r) ==
+    LET d == DecideWs(r.sid) IN
+    /\ (d.status = "101") = (r.status = 101)
+    /\ (d.status = "refused") => r.status >= 400
+    /\ (r.sid \in {"polling", "upgraded", "wsdirect"}) =>
+          (IF d.takeover THEN r.transportAfter = "websocket" /\ ~r.sessionClosed
+                         ELSE r.transportAfter = r.transportBefore /\ ~r.sessionClosed /\ r.stillWorks)
+    /\ r.newsock = 0
+
 RaceOK(r) == r.storeafter = 0 /\ r.created = r.closedcb
 
 TReq  == IsEvent("req")  /\ (IF ReqOK(Rec) THEN TRUE ELSE PrintT(<<"STEP_MISMATCH", l>>))
+TWs   == IsEvent("wsreq") /\ (IF WsOK(Rec) THEN TRUE ELSE PrintT(<<"STEP_MISMATCH", l>>))
 TRace == IsEvent("race") /\ (IF RaceOK(Rec) THEN TRUE ELSE PrintT(<<"STEP_MISMATCH", l>>))
 TSids == IsEvent("sids") /\ (IF Rec.n = Rec.distinct THEN TRUE ELSE PrintT(<<"STEP_MISMATCH", l>>))
 TReset == IsEvent("reset")
 
 TraceInit == l = 1 /\ Init
-TraceNext == (TReq \/ TRace \/ TSids \/ TReset) /\ UNCHANGED vars
+TraceNext == (TReq \/ TWs \/ TRace \/ TSids \/ TReset) /\ UNCHANGED vars
 TraceSpec == TraceInit /\ [][TraceNext]_<<l, vars>>
 HWM == IF l > TLCGet(1) THEN TLCSet(1, l) ELSE TRUE
 TraceAccepted == IF TLCGet(1) = Len(TraceLog) + 1 THEN TRUE
